@@ -39,23 +39,18 @@ theorem union_idem (s : St) : union s s = some s := by
 
 theorem union_assoc (a b c : St) :
     (union a b).bind (union · c) = (union b c).bind (union a) := by
-  unfold union
-  by_cases h1 : a.k = b.k ∧ a.m = b.m
-  · by_cases h2 : b.k = c.k ∧ b.m = c.m
-    · have e1 : a.k = c.k := h1.1.trans h2.1
-      have e2 : a.bits.size = b.bits.size := h1.2
-      have e3 : b.bits.size = c.bits.size := h2.2
-      simp [h1, h2, St.m, e1, e2, e3, zipWith_or_assoc]
-    · have e2 : a.bits.size = b.bits.size := h1.2
-      have : ¬ (a.k = c.k ∧ b.bits.size = c.bits.size) := by
-        intro h; exact h2 ⟨h1.1.symm.trans h.1, h.2⟩
-      simp [h1, h2, St.m, e2, this]
-  · by_cases h2 : b.k = c.k ∧ b.m = c.m
-    · have e3 : b.bits.size = c.bits.size := h2.2
-      have : ¬ (a.k = b.k ∧ a.bits.size = c.bits.size) := by
-        intro h; exact h1 ⟨h.1, h.2.trans e3.symm⟩
-      simp [h1, h2, St.m, e3, this]
-    · simp [h1, h2]
+  apply Option.ext
+  intro u
+  simp only [Option.bind_eq_some_iff, union_eq_some_iff, St.m]
+  constructor
+  · rintro ⟨ab, ⟨⟨h1, h2⟩, rfl⟩, ⟨h3, h4⟩, rfl⟩
+    simp only [Array.size_zipWith] at h3 h4
+    refine ⟨_, ⟨⟨by omega, by omega⟩, rfl⟩, ⟨h1, by simp only [Array.size_zipWith]; omega⟩, ?_⟩
+    rw [zipWith_or_assoc]
+  · rintro ⟨bc, ⟨⟨h1, h2⟩, rfl⟩, ⟨h3, h4⟩, rfl⟩
+    simp only [Array.size_zipWith] at h3 h4
+    refine ⟨_, ⟨⟨h3, by omega⟩, rfl⟩, ⟨by simp only; omega, by simp only [Array.size_zipWith]; omega⟩, ?_⟩
+    rw [zipWith_or_assoc]
 
 theorem union_twice (s o : St) : (union s o).bind (union · o) = union s o := by
   unfold union
